@@ -449,9 +449,33 @@ def run_cell(cell, M, seed):
     per = [j for j, c in enumerate(cell["coords"]) if c["kind"] == "periodic"]
     ref = [j for j, c in enumerate(cell["coords"]) if c["kind"] == "reflective"]
     np.random.seed(int(rng.integers(0, 2**31 - 1)))
-    out = mc.parallel_mcmc(u=u.copy(), x=u.copy(), logl=ll(u)[0], blobs=None, assignments=np.asarray(lab, dtype=int), beta=cell["beta"], mode_stats=ms,
+    # how many proposals the boundary map actually folds (measured, not guessed from the walkers' distance to the seam: a heavy-tailed
+    # tpCN proposal reaches the seam from many standard deviations away)
+    fold = {"n": 0, "folded": 0}
+    orig_map = getattr(mc, "apply_boundary_conditions", None)
+    if orig_map is not None and (per or ref):
+        def counting_map(v, *a, **k):
+            r = orig_map(v, *a, **k)
+            fold["n"] += 1
+            fold["folded"] += int(not np.array_equal(np.asarray(r), np.asarray(v)))
+            return r
+
+        mc.apply_boundary_conditions = counting_map
+    try:
+        out = _call_kernel(mc, u, ll, lab, cell, ms, per, ref)
+    finally:
+        if orig_map is not None:
+            mc.apply_boundary_conditions = orig_map
+    return _summarise(cell, ms, u, out, M, fold)
+
+
+def _call_kernel(mc, u, ll, lab, cell, ms, per, ref):
+    return mc.parallel_mcmc(u=u.copy(), x=u.copy(), logl=ll(u)[0], blobs=None, assignments=np.asarray(lab, dtype=int), beta=cell["beta"], mode_stats=ms,
                            log_likelihood=ll, prior_transform=lambda v: v, progress_bar=None, n_steps=1, n_max=cell["n_max"], sample=cell["kernel"],
                            periodic=np.array(per, dtype=int) if per else None, reflective=np.array(ref, dtype=int) if ref else None, verbose=False)
+
+
+def _summarise(cell, ms, u, out, M, fold):
     u2 = np.asarray(out[0])
     moved = np.any(u2 != u, axis=1)
     med = np.median(u, axis=0)
@@ -468,12 +492,14 @@ def run_cell(cell, M, seed):
     near = 0.0
     for j, c in enumerate(cell["coords"]):
         near = max(near, float(np.mean((u[:, j] < plen[j]) | (u[:, j] > 1 - plen[j]))))
-    return {"z": zs, "acc": float(moved.mean()), "crossing": crossing, "near_wall": near, "steps": int(out[6])}
+    return {"z": zs, "acc": float(moved.mean()), "crossing": crossing, "near_wall": near, "steps": int(out[6]),
+            "fold_rate": fold["folded"] / max(fold["n"], 1)}
 
 
 def classify_cell(cell, info):
     folded = any(c["kind"] in ("periodic", "reflective") for c in cell["coords"])
-    return {"kernel": cell["kernel"], "folded": folded and info["near_wall"] >= 0.01,
+    # 'folded' = the kernel really folded proposals (measured rate; the walkers' distance to the seam is kept as a second indicator)
+    return {"kernel": cell["kernel"], "folded": folded and (info["near_wall"] >= 0.01 or info.get("fold_rate", 0.0) >= 1e-4),
             "hard_wall": any(c["kind"] == "hard" for c in cell["coords"]) and info["near_wall"] >= 0.01,
             "labels": cell["labels"], "crossing": ">1e-3" if info["crossing"] > 1e-3 else "<=1e-3"}
 
